@@ -711,17 +711,75 @@ EXCLUDE_AUTO = {
 }
 
 
+def _callees(ctx, qual):
+    """Package-local functions / classes referenced by the body of ``qual`` (as callee or as value)."""
+    from .. import terms as T
+    out = set()
+    try:
+        fa = ctx.fa(qual)
+    except Exception:
+        return out
+    repo = ctx.repo
+    def terms_of(v):
+        if T.is_term(v):
+            yield from T.walk(v)
+        elif isinstance(v, tuple):
+            for y in v:
+                yield from terms_of(y)
+    for e in fa.events:
+        for v in e.d.values():
+            if not isinstance(v, tuple):
+                continue
+            for x in terms_of(v):
+                if x[0] == 'g' and x[1].startswith('cooler.'):
+                    q = repo.resolve(x[1])
+                    if q in repo.funcs:
+                        out.add(q)
+                    elif q in repo.classes:
+                        for m in repo.class_methods(q).values():
+                            out.add(m.qualname)
+                elif x[0] == 'fn' and x[1] in repo.funcs:
+                    out.add(x[1])
+                elif x[0] == 'attr' and x[1] == ('v', 'self') and fa.fi.cls is not None:
+                    q = fa.fi.cls + '.' + x[2]
+                    if q in repo.funcs:
+                        out.add(q)
+    return out
+
+
+_REACH_CACHE = {}
+
+
 def _auto(ctx, prop, lib):
-    """Every library function that lives in a file the property is anchored in."""
+    """Every library function that lives in a file the property is anchored in, or is reachable
+    (depth <= 3 in the call / reference graph) from a function of those files."""
     import os
     from ..sweeps import anchor_files
     files = set(anchor_files(prop))
+    key = (ctx.repo.root, prop)
+    if key not in _REACH_CACHE:
+        seeds = [fi.qualname for fi in ctx.repo.all_functions()
+                 if os.path.relpath(fi.file, ctx.repo.root) in files]
+        seen = set(seeds)
+        frontier = list(seeds)
+        for depth in range(3):
+            nxt = []
+            for q in frontier:
+                # only expand through functions of the anchored files or library functions
+                for c in _callees(ctx, q):
+                    if c not in seen:
+                        seen.add(c)
+                        nxt.append(c)
+            frontier = [q for q in nxt if q in lib or os.path.relpath(ctx.repo.func(q).file, ctx.repo.root) in files]
+        _REACH_CACHE[key] = seen
+    reach = _REACH_CACHE[key]
     out = []
     for qual in lib:
         if qual in EXCLUDE_AUTO or not ctx.repo.has_func(qual):
             continue
+        q = ctx.repo.func(qual).qualname
         rel = os.path.relpath(ctx.repo.func(qual).file, ctx.repo.root)
-        if rel in files:
+        if rel in files or q in reach:
             out.append(qual)
     return out
 
